@@ -2,8 +2,8 @@
 # tools/mutation_matrix.sh [ids...] : run every seeded change against the check of its own property (and extra checks listed in extra_checks.txt)
 # in scratch worktrees of /repo (never touching /repo itself); writes seeded/RESULTS.tsv
 cd "$(dirname "$0")/.."
-IDS=${@:-$(ls seeded | grep -E '^C[0-9]+-[AB]$')}
-OUT=seeded/RESULTS.tsv; TMP=$(mktemp -d /tmp/mm.XXXX)
+IDS=${@:-$(ls seeded | grep -E "^C[0-9]+-[A-Z]$")}
+OUT=${OUT:-seeded/RESULTS.tsv}; TMP=$(mktemp -d /tmp/mm.XXXX)
 run_one() {
   id=$1; prop=${id%%-*}; W=/tmp/mm_wt_$id
   git -C /repo worktree remove --force $W 2>/dev/null; rm -rf $W
